@@ -40,6 +40,27 @@ class CallableInstance:
         return None
 
 
+class UnhashableCallable:
+    """a callable value object: defines __eq__, so instances cannot be hashed (like a non-frozen dataclass with __call__)"""
+    __hash__ = None
+
+    def __eq__(self, other):
+        return isinstance(other, UnhashableCallable)
+
+    def __call__(self, *a, **k):
+        return None
+
+
+class UnhashableAsyncCallable:
+    __hash__ = None
+
+    def __eq__(self, other):
+        return isinstance(other, UnhashableAsyncCallable)
+
+    async def __call__(self, *a, **k):
+        return None
+
+
 class NamedWrapper:
     """a class-based decorator instance that copied the wrapped function's __name__ (not its __qualname__) onto itself"""
     def __init__(self, fn):
@@ -76,12 +97,14 @@ def handle_kinds(aio):
     if aio:
         return [("async def", coro_function), ("partial(async)", functools.partial(coro_function, 1)),
                 ("async callable instance", AsyncCallable()), ("lambda->coro", lambda *a: coro_function()),
-                ("bound method", WithMethod().method), ("wrapper with __name__ only", NamedWrapper(coro_function))]
+                ("bound method", WithMethod().method), ("wrapper with __name__ only", NamedWrapper(coro_function)),
+                ("unhashable async callable instance", UnhashableAsyncCallable())]
     return [("def", plain_function), ("def no locals", no_locals), ("lambda", lambda *a, **k: None),
             ("builtin", print), ("bound method", WithMethod().method), ("partial", functools.partial(plain_function, 1)),
             ("callable instance", CallableInstance()), ("class", CallableInstance), ("staticmethod", WithMethod.static),
             ("classmethod", WithMethod.clsm), ("partial of builtin", functools.partial(print, end="")),
-            ("wrapper with __name__ only", NamedWrapper(plain_function))]
+            ("wrapper with __name__ only", NamedWrapper(plain_function)),
+            ("unhashable callable instance", UnhashableCallable())]
 
 
 def prio_kinds(m):
